@@ -561,6 +561,16 @@ class Interp:
     def run(self, fn, args):
         self.executed.add(fn.name)
         fr = [Cell() for _ in range(fn.nlocals + 1)]
+        z = self.memo.get((id(fn), 'ZST'))
+        if z is None:
+            z = []
+            for loc, ty in fn.ltypes.items():
+                m = re.match(r'^(?:for<[^>]*> )?(?:unsafe )?(?:extern "[^"]*" )?fn\(.*\)(?: -> .*?)? \{(.+)\}$', ty)
+                if m: z.append((loc, FnItem(m.group(1)))); continue
+                m = re.match(r'^\{closure@([^}]*)\}$', ty)
+                if m: z.append((loc, Closure(m.group(1), [])))
+            self.memo[(id(fn), 'ZST')] = z
+        for loc, v in z: fr[loc].v = v
         if len(fr) <= len(args): fr += [Cell() for _ in range(len(args) + 1 - len(fr))]
         for i, a in enumerate(args): fr[i + 1].v = a
         bb = 'bb0'
@@ -950,6 +960,8 @@ class Interp:
         if isinstance(src, SeqIter):
             r = src.items[src.i:]; src.i = len(src.items); return r
         if isinstance(src, MapAdapter): return [self.call_value(src.f, [x]) for x in self.drain(src.inner)]
+        if isinstance(src, SliceIter):
+            r = [Ptr(Cell(src.sl.vec)).sub(src.sl.lo + i) for i in range(src.i, len(src.sl))]; src.i = len(src.sl); return r
         if isinstance(src, PeekChars):
             r = src.chars[src.pos:]; src.pos = len(src.chars); return r
         raise Unsupported(f'drain {src!r}')
